@@ -47,22 +47,22 @@ def run(c):
         # four small state spaces: run side by side (distinct cfg files: the derived configs must not collide)
         c.parallel([
             # action coverage (vacuity control) is collected on a tiny space only: -coverage slows TLC down ~10x here
-            lambda: c.tlc_model("PmisModel", cfg="PmisModelCov.cfg", constants={"NN": 3, "MinNP": 1, "MaxNP": 3, "Sym": "TRUE"}, workers=2),
-            lambda: c.tlc_model("PmisModel", constants={"NN": 4, "MinNP": 1, "MaxNP": 3, "Sym": "TRUE"}, workers=4, coverage=False),
+            lambda: c.tlc_model("PmisModel", cfg="PmisModelCov.cfg", constants={"NN": 3, "MinNP": 1, "MaxNP": 3, "Sym": "TRUE"}, workers=2, heap="2g"),
+            lambda: c.tlc_model("PmisModel", constants={"NN": 4, "MinNP": 1, "MaxNP": 3, "Sym": "TRUE"}, workers=4, coverage=False, heap="3g"),
             lambda: c.tlc_model("PmisModel", cfg="PmisModel5.cfg", constants={"NN": 5, "MinNP": 1 if th else 2, "MaxNP": 3 if th else 2, "Sym": "TRUE"},
-                                workers=6 if not th else 8, timeout=2400, coverage=False),
+                                workers=6 if not th else 8, timeout=2400, coverage=False, heap="4g"),
             lambda: c.tlc_model("PmisModel", cfg="PmisModelDi.cfg", constants={"NN": 4 if th else 3, "MinNP": 1, "MaxNP": 3, "Sym": "FALSE"},
-                                workers=4 if not th else 8, timeout=2400, coverage=False),
-            lambda: c.tlc_model("Consolidation", workers=2)]
+                                workers=4 if not th else 8, timeout=2400, coverage=False, heap="4g"),
+            lambda: c.tlc_model("Consolidation", workers=2, heap="1g")]
             + ([lambda: c.tlc_model("PmisModel", cfg="PmisModel6.cfg", constants={"NN": 6, "MinNP": 2, "MaxNP": 2, "Sym": "TRUE"},
-                                    workers=8, timeout=3000, coverage=False)] if th else []))
+                                    workers=8, timeout=3000, coverage=False, heap="6g")] if th else []))
 
     def validate(t, label, chunk):
         lines = [x for x in open(t).read().splitlines() if x.startswith("{") and x.endswith("}")]
         if not lines:
             return None
         open(t, "w").write("\n".join(lines) + "\n")
-        return c.tlc_trace("C12Trace", t, label=label, chunk=chunk, env=XSS)
+        return c.tlc_trace("C12Trace", t, label=label, chunk=chunk, env=XSS, heap="3g")
 
     def code():
         rs = c.build("record_dist_solve", ["record_dist_solve.cpp"], mpi=True)
@@ -85,7 +85,7 @@ def run(c):
                 pick = [x for x in res["lines"] if '"k":"aggr"' in x]
                 step = max(1, len(pick) // (2000 if th else 500))
                 open(sub, "w").write("\n".join(pick[::step]) + "\n")
-                res["drift"] = c.tlc_trace("C12Trace", sub, label="drift@%dranks" % n, chunk=300, env=dict(XSS, C12MODE="drift"))["bad"] if pick else []
+                res["drift"] = c.tlc_trace("C12Trace", sub, label="drift@%dranks" % n, chunk=300, env=dict(XSS, C12MODE="drift"), heap="3g")["bad"] if pick else []
             return res
         for res in c.parallel([lambda j=j: one(j) for j in jobs], max_workers=3):
             if res is None:
